@@ -49,16 +49,35 @@
     array; `contact_stored`: the stored values are the values of the header, in order; `contact_max_expires`,
     `contact_min_expires`: maximum / minimum of the Expires fields of ALL values (minimum starting from 2^32-1).
   * `field_text`: a reported span `⟨i, j - i⟩` inside the buffer dereferences to the bytes `[i, j)`.
-  NOT proved here (oracle / correspondence only): `q` values outside the shape above (they go through `setQ`, see
-  `param_valued`); parameter names / unquoted values / bare URIs / display-name tokens containing a comma (for the
-  single-valued header kinds the code treats such a comma as an ordinary byte, except as the first byte of a token,
-  where it is skipped), and a `*` as the first byte of the second token of a display name; a trailing ";" or an "="
-  without value; the header count (`HNo`) and the accumulation over several Contact / PAI header lines of one message
-  (that is ParseHeaders calling these functions once per line: C07 treats the generic headers only); rejection of
-  ill-formed values other than `*,`.  Model tied to parse_from.go / parse_contact.go / parse_pai.go by the
+  * Further shapes (`Sipsp.Proofs.NameAddrSpec2`): `q_any_text`, `q_ok_iff`, `param_q_any`: EVERY value text of a `q`
+    parameter, of any length: exactly the texts digits[.≤3 digits] with value ≤ 1 (`NqQText`; the code also takes an
+    empty integer part and leading zeros: `.5` -> 500, `001` -> 1000) set Q to the value in thousandths, every other
+    text leaves Q unset and sets the parameter-error indication; `bracket_params_general`, `bare_params_general`,
+    `trailing_semicolon_uri`, `trailing_semicolon_params`, `empty_param_value`: a trailing ";", empty parameters ";;"
+    and `name=` with an empty value are accepted (empty value = no value: only `lr` is recognised), the reported
+    spans run up to and including the trailing ";" / "="; rejections with verdict and offset for the general shapes:
+    `reject_uri_unterminated` (line end / second "<" inside the brackets -> bad character at that byte),
+    `reject_name_quote_unterminated`, `reject_name_quote_esc_crlf`, `reject_name_without_uri`,
+    `reject_param_name_bad`, `reject_param_value_bad`, `reject_param_quote_unterminated`; `empty_uri_accepted`
+    (`<>` gives an empty URI span); `bytes_after_bracket_skipped(_params)`: after ">" every byte other than ";",
+    LWS and (multi-valued kinds) "," is skipped; `single_valued_comma_ignored`: for From / To a comma after the
+    value is NOT a separator (`From: <sip:a@b>, <sip:c@d>` is reported exactly like `<sip:a@b>` alone);
+    `bare_uri_comma`, `single_valued_comma_after_ws_rejected`.
+  * Several header lines of one message (`Sipsp.Proofs.HdrTyped`): `contact_lines_hno`, `contact_lines_n`,
+    `contact_lines_stored`, `contact_lines_max_expires`, `contact_lines_min_expires`: after any number of Contact
+    lines (each a `ValList`) parsed with one values object, HNo = number of lines, N = total number of values, the
+    stored values are all values in order up to the capacity, max / min expires range over all of them;
+    `block_contacts`: the same for the Contact / PAI lines of a header block parsed by ParseHeaders, whatever headers
+    stand between them; `pai_lines_hno`, `pai_lines_n`.
+  NOT proved here (oracle / correspondence only): commas inside parameter names / unquoted values for From / To in
+  general (ordinary bytes, except that a leading comma is dropped); the partial object left behind by the
+  parameter-level rejections; value lists whose values use the trailing-";" / junk-after-">" shapes; stored values of
+  several PAI lines (only the counters).  Model tied to parse_from.go / parse_contact.go / parse_pai.go by the
   correspondence check.
 -/
 import Sipsp.Proofs.NameAddrSpec
+import Sipsp.Proofs.NameAddrSpec2
+import Sipsp.Proofs.HdrTyped
 
 namespace Sipsp.C09
 open Sipsp
@@ -341,5 +360,123 @@ example : (parseNameAddrPVal HdrTo "sip:b@h;tag=\"a;b\"\r\n \r\nX".toUTF8.data 0
   decide +kernel
 
 example : (parseNameAddrPVal HdrContact "*\r\nX".toUTF8.data 0 {}).2.2.star = true := by decide +kernel
+
+/-! ### further shapes: every q text, trailing ';' and empty values, rejections, bytes after '>', commas in single-valued kinds (proved in `Sipsp.Proofs.NameAddrSpec2`) -/
+
+/-- **the `q` value, every text**: either the text is a `q` text (`NqQText`: digits, optionally a dot and at most three
+    digits, value at most 1 — the integer part may be empty or have leading zeros) and Q is set to its value in
+    thousandths, nothing else changes; or it is not, Q is left alone and the parameter-error indication is set: one of
+    "not a number", "too long", "bad value" with the offset of the START of the value — except for more than three bytes
+    after the first dot: "too long" with the offset of the END of the value. -/
+theorem q_any_text : type_of% @Sipsp.nq_setQ_total := @Sipsp.nq_setQ_total
+
+/-- **iff**: on an object without a pending parameter error, `setQ` leaves the error indication clear exactly for the
+    `q` texts -/
+theorem q_ok_iff : type_of% @Sipsp.nq_setQ_ok_iff := @Sipsp.nq_setQ_ok_iff
+
+/-- **`q=value`, every value**: lifted to the effect of the parameter on the object -/
+theorem param_q_any : type_of% @Sipsp.nq_param_q_any := @Sipsp.nq_param_q_any
+
+/-- **`[display-name] <uri> [LWS] ;` and ANY generalised parameter list** (`NqParams`: parameters with / without value,
+    empty values `name=`, empty parameters `;;`, trailing `;`): accepted; the parameter span runs from the first byte of
+    the first parameter name to `ve` (empty if there is no named parameter), the value from its first byte to `ve` -/
+theorem bracket_params_general : type_of% @Sipsp.n2_bracket_params := @Sipsp.n2_bracket_params
+
+/-- **bare URI `[LWS] ;` and ANY generalised parameter list**: they are header parameters -/
+theorem bare_params_general : type_of% @Sipsp.n2_bare_params := @Sipsp.n2_bare_params
+
+/-- `<uri> ;` and the line end: accepted, no parameters; the reported value INCLUDES the `;` -/
+theorem trailing_semicolon_uri : type_of% @Sipsp.n2_uri_trailing_semi := @Sipsp.n2_uri_trailing_semi
+
+/-- `<uri> ;params ;` and the line end: accepted; the reported parameter span and value INCLUDE the trailing `;` (and
+    the white space in front of it) -/
+theorem trailing_semicolon_params : type_of% @Sipsp.n2_params_trailing_semi := @Sipsp.n2_params_trailing_semi
+
+/-- `<uri> ;name=` and the line end (an `=` without a value as the only parameter): accepted; the parameter acts like
+    `;name` (only `lr` is recognised: `tag=`, `q=`, `expires=` set nothing and raise no error); the reported spans
+    INCLUDE the `=` -/
+theorem empty_param_value : type_of% @Sipsp.n2_empty_value := @Sipsp.n2_empty_value
+
+/-- **unterminated `<` / a second `<`**: `[display-name] <` followed by URI bytes and then — instead of `>` — a space,
+    a tab, a CR, a LF (the line end) or another `<`: verdict "bad character", the offset is that of the offending byte
+    (inside the value), the object is left in the "inside the URI" state with only the display name recorded -/
+theorem reject_uri_unterminated : type_of% @Sipsp.n3_uri_unterminated := @Sipsp.n3_uri_unterminated
+
+/-- **empty URI `<>`**: NOT rejected — the value is accepted with an empty URI span (instance of the bracket form) -/
+theorem empty_uri_accepted : type_of% @Sipsp.n3_empty_uri := @Sipsp.n3_empty_uri
+
+/-- **unterminated quoted string in the display name**: a quote opens at `k` (at the start of the value or after name
+    tokens / closed quoted strings) and the line ends before it is closed: verdict "bad header" (ErrHdrBad), the
+    returned offset is the one after the line end (it is NOT the offset of the quote), nothing but the start of the
+    value is recorded -/
+theorem reject_name_quote_unterminated : type_of% @Sipsp.n3_name_quote_unterminated := @Sipsp.n3_name_quote_unterminated
+
+/-- … and a backslash in front of the CR / LF inside it: "bad character" at the CR / LF -/
+theorem reject_name_quote_esc_crlf : type_of% @Sipsp.n3_name_quote_esc_crlf := @Sipsp.n3_name_quote_esc_crlf
+
+/-- **a display name that is never followed by `<uri>`** (`Bob sip:a@b`, `"Bob" sip:a@b`, … — two or more tokens /
+    quoted strings and then the line end): verdict "bad header" (ErrHdrBad), offset after the line end -/
+theorem reject_name_without_uri : type_of% @Sipsp.n3_name_without_uri := @Sipsp.n3_name_without_uri
+
+/-- **`<` or `>` where a parameter name is expected or inside a parameter name** (after any number of well-formed
+    parameters): "bad character" at that byte -/
+theorem reject_param_name_bad : type_of% @Sipsp.n3_param_name_bad := @Sipsp.n3_param_name_bad
+
+/-- **`=`, `<` or `>` inside (or in place of) a parameter value**: "bad character" at that byte -/
+theorem reject_param_value_bad : type_of% @Sipsp.n3_param_value_bad := @Sipsp.n3_param_value_bad
+
+/-- **unterminated quoted string in a parameter value** (the quote opens at `k`, at the start of the value or after
+    well-formed value text): verdict "bad header" (ErrHdrBad), offset after the line end -/
+theorem reject_param_quote_unterminated : type_of% @Sipsp.n3_param_quote_unterminated := @Sipsp.n3_param_quote_unterminated
+
+/-- **`[display-name] <uri>` followed by ignored bytes** and the end of the value: accepted exactly like `<uri>` alone;
+    the ignored bytes are in no reported span (the value ends at the `>`). A second `<…>` after the first is such a
+    run of ignored bytes. -/
+theorem bytes_after_bracket_skipped : type_of% @Sipsp.n4_bracket_junk := @Sipsp.n4_bracket_junk
+
+/-- … and then `;` and a (generalised) parameter list: the parameters are attached to the FIRST `<uri>`; the reported
+    value then covers the ignored bytes -/
+theorem bytes_after_bracket_skipped_params : type_of% @Sipsp.n4_bracket_junk_params := @Sipsp.n4_bracket_junk_params
+
+/-- **From / To: a comma after `<uri>` is NOT a separator and NOT an error**: `<uri> [LWS] , anything-without-";"` up to
+    the line end is accepted and reported exactly as `<uri>` alone — the second value is silently ignored
+    (e.g. `From: <sip:a@b>, <sip:c@d>`) -/
+theorem single_valued_comma_ignored : type_of% @Sipsp.n4_single_comma_ignored := @Sipsp.n4_single_comma_ignored
+
+/-- **From / To with a bare URI: commas inside it belong to the URI** (`From: sip:a@b,sip:c@d` reports the one URI
+    `sip:a@b,sip:c@d`) -/
+theorem bare_uri_comma : type_of% @Sipsp.n4_bare_comma := @Sipsp.n4_bare_comma
+
+/-- **From / To: `… ;param [=value] LWS ,`** (a well-formed parameter, at least one byte of white space, a comma):
+    "bad character" at the comma — whereas the same comma WITHOUT white space in front of it is taken as a byte of the
+    parameter name / value -/
+theorem single_valued_comma_after_ws_rejected : type_of% @Sipsp.n4_single_comma_after_ws := @Sipsp.n4_single_comma_after_ws
+
+/-! ### several Contact / P-Asserted-Identity header lines of one message (proved in `Sipsp.Proofs.HdrTyped`) -/
+
+/-- **`HNo` is the number of Contact header lines** -/
+theorem contact_lines_hno : type_of% @Sipsp.ht_htLines_hNo := @Sipsp.ht_htLines_hNo
+
+/-- **`N` is the total number of values of all Contact lines** (also those beyond the caller's array) -/
+theorem contact_lines_n : type_of% @Sipsp.ht_htLines_n := @Sipsp.ht_htLines_n
+
+/-- **the stored values are the values of all Contact lines, in order** (those that fit the caller's array) -/
+theorem contact_lines_stored : type_of% @Sipsp.ht_htLines_stored := @Sipsp.ht_htLines_stored
+
+/-- **the maximum expires summarises the values of all Contact lines** -/
+theorem contact_lines_max_expires : type_of% @Sipsp.ht_htLines_maxE := @Sipsp.ht_htLines_maxE
+
+/-- **the minimum expires summarises the values of all Contact lines**, starting from 2^32-1 for the first value of
+    the message -/
+theorem contact_lines_min_expires : type_of% @Sipsp.ht_htLines_minE := @Sipsp.ht_htLines_minE
+
+/-- **(3) the Contact values of a whole block**: whatever other headers stand between them, the contacts object
+    after the block is the old one after the Contact lines of the block, in order (`htLines`: see `ht_htLines_hNo`,
+    `ht_htLines_n`, `ht_htLines_stored`, `ht_htLines_maxE`, `ht_htLines_minE`); likewise P-Asserted-Identity -/
+theorem block_contacts : type_of% @Sipsp.HtBlock.contacts := @Sipsp.HtBlock.contacts
+
+theorem pai_lines_hno : type_of% @Sipsp.ht_paLines_hNo := @Sipsp.ht_paLines_hNo
+
+theorem pai_lines_n : type_of% @Sipsp.ht_paLines_n := @Sipsp.ht_paLines_n
 
 end Sipsp.C09
